@@ -48,6 +48,7 @@ structure Stanza where
   id : Nat
   resp : Bool
   ns : Ns := .stream
+  bad : Bool := false    -- reading its content fails half way (malformed or truncated input, a rejected token)
   deriving DecidableEq, Repr, Inhabited
 
 /-- `readerChan.stanzaName == start.Name || readerChan.stanzaName == xml.Name{Local: start.Name.Local}`
@@ -71,6 +72,7 @@ inductive SPc
   | idle
   | offering (j k : Nat)
   | waitClose (j k : Nat)
+  | dead                    -- `Serve` has returned (a write it had to make failed)
   deriving DecidableEq, Repr, Inhabited
 
 structure Cfg where
@@ -87,6 +89,8 @@ structure St where
   hist : List Stanza        -- every stanza the serve loop has read, in order
   hlog : List Nat           -- numbers of the stanzas given to the handler (latest first)
   dropped : List Nat        -- responses discarded because the waiter's context was done
+  broken : Bool := false    -- a transmission stopped inside an element: every later write fails (`errOutputBroken`)
+  outClosed : Bool := false -- the output stream was closed (`Close`): every later write fails (`ErrOutputStreamClosed`)
 
 def upd {α} (f : Nat → α) (i : Nat) (v : α) : Nat → α := fun j => if j = i then v else f j
 
@@ -101,12 +105,19 @@ def init : St :=
 inductive Act
   | call (i : Nat) | sendOk (i : Nat) | sendFail (i : Nat) | cancel (i : Nat)
   | recv (i : Nat) | timeout (i : Nat) | dereg (i : Nat) | close (i : Nat)
+  | readErr (i : Nat)       -- the caller reads the response it holds and hits the error in its content:
+                            -- the response closes itself (errCloser), the caller's own Close is then a no-op
   | read (st : Stanza) | abandon
+  | closeOut                -- the application closes the output stream
   deriving DecidableEq, Repr
 
 /-- is the context registered for requester `i` done? -/
 def ctxDone (cfg : Cfg) (s : St) (i : Nat) : Bool :=
   s.cancelled i || (cfg.derived && match s.rpc i with | .done _ _ => true | _ => false)
+
+/-- an incoming get/set IQ that no handler answers is answered by the serve loop itself: it has to
+write -/
+def autoReply (st : Stanza) : Bool := st.kind == .iq && !st.resp
 
 /-- the lookup of `handleInputStream`: only `result`/`error` stanzas, entry present, name equal -/
 def lookup (cfg : Cfg) (s : St) (st : Stanza) : Option Nat :=
@@ -123,11 +134,13 @@ def step (cfg : Cfg) (s : St) : Act → Option St
     | _ => none
   | .sendOk i =>
     match s.rpc i with
-    | .sending => some { s with rpc := upd s.rpc i .waiting }
+    | .sending => if s.broken || s.outClosed then none else some { s with rpc := upd s.rpc i .waiting }
     | _ => none
   | .sendFail i =>
+    -- on a closed output the call fails before it writes; otherwise the failure (the payload
+    -- reader, the connection) happens after the start element went out and leaves it unfinished
     match s.rpc i with
-    | .sending => some { s with rpc := upd s.rpc i (.leaving .sendErr) }
+    | .sending => some { s with rpc := upd s.rpc i (.leaving .sendErr), broken := s.broken || !s.outClosed }
     | _ => none
   | .cancel i => some { s with cancelled := upd s.cancelled i true }
   | .recv i =>
@@ -146,8 +159,23 @@ def step (cfg : Cfg) (s : St) : Act → Option St
   | .close i =>
     match s.rpc i with
     | .done (.reply k) false =>
+      -- the serve loop discards the rest of the element; if that cannot be read `Serve` returns the error
+      let isBad := match s.hist[k]? with | some st => st.bad | none => false
       some { s with rpc := upd s.rpc i (.done (.reply k) true),
-                    spc := if s.spc = .waitClose i k then .idle else s.spc }
+                    spc := if s.spc = .waitClose i k then (if isBad then .dead else .idle) else s.spc,
+                    outClosed := s.outClosed || (isBad && s.spc == .waitClose i k) }
+    | _ => none
+  | .readErr i =>
+    match s.rpc i with
+    | .done (.reply k) false =>
+      match s.hist[k]? with
+      | some st =>
+        if st.bad then
+          some { s with rpc := upd s.rpc i (.done (.reply k) true),
+                        spc := if s.spc = .waitClose i k then .dead else s.spc,
+                        outClosed := s.outClosed || s.spc == .waitClose i k }
+        else none
+      | none => none
     | _ => none
   | .read st =>
     match s.spc with
@@ -155,12 +183,24 @@ def step (cfg : Cfg) (s : St) : Act → Option St
       let k := s.hist.length
       match lookup cfg s st with
       | some j => some { s with hist := s.hist ++ [st], spc := .offering j k }
-      | none => some { s with hist := s.hist ++ [st], hlog := k :: s.hlog }
+      | none =>
+        -- the handler sees it; if the serve loop then has to write its own reply on an output
+        -- that cannot take it, `Serve` returns that error (and closes the output)
+        -- (the same when the rest of the element cannot be read: discarding it fails)
+        if st.bad || (autoReply st && (s.broken || s.outClosed)) then
+          some { s with hist := s.hist ++ [st], hlog := k :: s.hlog, spc := .dead, outClosed := true }
+        else some { s with hist := s.hist ++ [st], hlog := k :: s.hlog }
     | _ => none
   | .abandon =>
     match s.spc with
-    | .offering j k => if ctxDone cfg s j then some { s with spc := .idle, dropped := k :: s.dropped } else none
+    | .offering j k =>
+      if ctxDone cfg s j then
+        let isBad := match s.hist[k]? with | some st => st.bad | none => false
+        some { s with spc := if isBad then .dead else .idle, dropped := k :: s.dropped,
+                      outClosed := s.outClosed || isBad }
+      else none
     | _ => none
+  | .closeOut => some { s with outClosed := true }
 
 def run (cfg : Cfg) : St → List Act → Option St
   | s, [] => some s
@@ -219,6 +259,7 @@ structure RSt where
   hpc : Option Nat             -- handler between its delete and its send to waiter `j`
   unhandled : List Nat         -- ids reported through `Unhandled`
   overflow : Bool              -- a send found the buffer full (would block the serve loop)
+  broken : Bool := false       -- a transmission failed inside its element: later transmissions fail at once
 
 inductive RAct
   | call (i : Nat) | sendOk (i : Nat) | sendFail (i : Nat) | cancel (i : Nat)
@@ -236,11 +277,11 @@ def rstep (ids : Nat → Nat) (s : RSt) : RAct → Option RSt
     | .fresh => some { s with wpc := upd s.wpc i .sending, table := upd s.table (ids i) (some i) }
     | _ => none
   | .sendOk i => match s.wpc i with
-    | .sending => some { s with wpc := upd s.wpc i .waiting }
+    | .sending => if s.broken then none else some { s with wpc := upd s.wpc i .waiting }
     | _ => none
   | .sendFail i => match s.wpc i with
     | .sending => some { s with wpc := upd s.wpc i (.done false),
-                                table := upd s.table (ids i) none }
+                                table := upd s.table (ids i) none, broken := true }
     | _ => none
   | .cancel i => some { s with cancelled := upd s.cancelled i true }
   | .take i => match s.wpc i with
